@@ -4,17 +4,19 @@ import random
 def tagbytes(trk, i, prefix=b"T"):
     return list(prefix + bytes([48 + trk, 58, 97 + (i % 26), 97 + ((i // 26) % 26)]))
 
-def random_song(rng, ntracks=None, maxev=10, loops="none", tempo_changes=True, fmt=1):
+def random_song(rng, ntracks=None, maxev=10, loops="none", tempo_changes=True, fmt=1, tempo_rich=False):
+    """tempo_rich: several tempo changes in track 0 and mostly NO tempo event at tick 0 (the default tempo is in force until
+    the first change): what a rewind / seek / loop jump has to restore then differs from what any later point holds"""
     ntracks = ntracks or rng.choice([1, 1, 2, 2, 3, 4])
     if fmt == 0: ntracks = 1
-    div = rng.choice([96, 100, 250, 120])
+    div = rng.choice([100, 250]) if tempo_rich and rng.random() < 0.7 else rng.choice([96, 100, 250, 120])
     need_tempo0 = (500000 % div) != 0
     qs = [2500, 5000, 10000]
     tracks = []
     vid = [1]
     for k in range(ntracks):
         ev = []
-        if k == 0 and (need_tempo0 or rng.random() < 0.5):
+        if k == 0 and (need_tempo0 or rng.random() < (0.15 if tempo_rich else 0.5)):
             ev.append([0, {"k": "tempo", "us": div * rng.choice(qs)}])
         ev.append([0, {"k": "pc", "ch": k, "p": k}])
         sounding = []
@@ -26,7 +28,9 @@ def random_song(rng, ntracks=None, maxev=10, loops="none", tempo_changes=True, f
         for i in range(n):
             dt = rng.choice([0, 0, 0, 1, 10, 48, 96, 96, 200, 300])
             r = rng.random()
-            if r < 0.35:
+            if tempo_rich and k == 0 and tempo_changes and rng.random() < 0.22:
+                ev.append([dt, {"k": "tempo", "us": div * rng.choice(qs)}])
+            elif r < 0.35:
                 note = rng.choice([48, 50, 52, 53, 55, 57, 59, 60]) if not two else rng.choice([48, 50, 52])
                 chn = k + 10 if two and rng.random() < 0.5 else k
                 v = vid[0]; vid[0] = vid[0] % 126 + 1
